@@ -611,3 +611,23 @@ Proof.
   cbn [step]. rewrite E'. cbv zeta. cbn [fst snd]. unfold with_rc. fld. repeat split; auto.
   destruct b; [destruct (B3 eq_refl) as (_ & A & B)|destruct (B4 eq_refl) as (_ & A & B)]; auto.
 Qed.
+
+(* ---------- a burst of simultaneous arrivals ---------- *)
+Definition passes (vs : list verdict) : Z :=
+  Z.of_nat (length (filter (fun v => match v with Pass => true | _ => false end) vs)).
+
+Lemma burst_sequential c : forall k s,
+  fst (burst c s k) = exec (step c) s (repeat (Arrive None) k) /\
+  snd (burst c s k) = passes (run_from (step c) s (repeat (Arrive None) k)).
+Proof. induction k as [|k IH]; intros s; [split; reflexivity|].
+  cbn [burst repeat exec run_from step]. destruct (arrive c s None) as [s1 v] eqn:Ea. cbn [fst].
+  destruct (IH s1) as [I1 I2]. destruct (burst c s1 k) as [s2 n]. cbn [fst snd] in *. subst.
+  split; [reflexivity|]. unfold passes. cbn [filter]. destruct v; cbn [length]; lia. Qed.
+
+Lemma burst_shielded c s k : state s = Tripped -> now s < until s -> burst c s k = (s, 0).
+Proof. intros Hs Hu. induction k as [|k IH]; [reflexivity|]. cbn [burst]. unfold arrive. rewrite Hs.
+  replace (now s <? until s) with true by (symmetry; apply Z.ltb_lt; exact Hu). rewrite IH. reflexivity. Qed.
+
+Lemma burst_standby c s k : state s = Standby -> burst c s k = (s, Z.of_nat k).
+Proof. intros Hs. induction k as [|k IH]; [reflexivity|]. cbn [burst]. unfold arrive. rewrite Hs. rewrite IH.
+  f_equal. lia. Qed.
